@@ -396,9 +396,9 @@ func (p *Polyline) decode(d *decoder) {
 	}
 	*p = make([]Point, nvertices)
 	for i := range *p {
-		(*p)[i].X = d.readFloat64()
-		(*p)[i].Y = d.readFloat64()
-		(*p)[i].Z = d.readFloat64()
+		(*p)[i].X = d.readPointCoord()
+		(*p)[i].Y = d.readPointCoord()
+		(*p)[i].Z = d.readPointCoord()
 	}
 }
 
